@@ -824,7 +824,8 @@ func (r *verifApiRun) op(tok string) (obs string) {
 		// snapshot).  -canary_compaction_start moves the compaction horizon so that everything applied
 		// so far is old enough to be folded into the state message.
 		verifApiBarrier()
-		r.closeWatch()
+		// an open long poll (op L) stays open across the restore: InstallSnapshot on a lagging node happens
+		// while clients are connected; the stream is probed after the restore (field stream=)
 		before := r.markers()
 		revB, baseB, bannedB := verifApiConfigDigest(ircServer)
 		*canaryCompactionStart = time.Now().Add(48 * time.Hour).UnixNano()
@@ -849,8 +850,8 @@ func (r *verifApiRun) op(tok string) (obs string) {
 		if data, err := ircServer.Marshal(verifApiLastIndex()); err == nil {
 			r.base, r.baseIndex = data, verifApiLastIndex()
 		}
-		return fmt.Sprintf("K|markers_same=%v|cfg_same=%v|before=%s|after=%s|snapindex=%d|kept=%d..%d|rev=%d|base=%s|banned=%s", before == after,
-			revB == revA && baseB == baseA && bannedB == bannedA, before, after, meta.Index, first, lastKept, revA, baseA, bannedA)
+		return fmt.Sprintf("K|markers_same=%v|cfg_same=%v|before=%s|after=%s|snapindex=%d|kept=%d..%d|rev=%d|base=%s|banned=%s|stream=%s", before == after,
+			revB == revA && baseB == baseA && bannedB == bannedA, before, after, meta.Index, first, lastKept, revA, baseA, bannedA, r.streamProbe())
 
 	case "S":
 		verifApiBarrier()
